@@ -212,6 +212,28 @@ pub fn install_panic_hook() {
         } else {
             "?".into()
         };
+        // Panics inside the generic jxl-grid helpers say nothing about the defect: attribute them to
+        // the first caller frame outside jxl-grid as well.
+        let loc = if loc.starts_with("/repo/crates/jxl-grid/") {
+            let bt = format!("{}", std::backtrace::Backtrace::force_capture());
+            let caller = bt
+                .lines()
+                .filter_map(|l| l.trim().strip_prefix("at "))
+                .filter(|l| l.starts_with("/repo/crates/") && !l.starts_with("/repo/crates/jxl-grid/"))
+                .map(|l| {
+                    // file:line:col -> file:line
+                    let mut it = l.rsplitn(2, ':');
+                    let _col = it.next();
+                    it.next().unwrap_or(l).to_string()
+                })
+                .next();
+            match caller {
+                Some(c) => format!("{loc}<-{}", c.trim_start_matches("/repo/")),
+                None => loc,
+            }
+        } else {
+            loc
+        };
         if std::env::var("VCHECK_BACKTRACE").is_ok() {
             eprintln!("panic at {loc}: {msg}\n{}", std::backtrace::Backtrace::force_capture());
         }
